@@ -344,6 +344,69 @@ theorem counter_updates_never_err {s : State} (h : Reachable s) (o : HostId) :
 
 example : ∃ s, Reachable s ∧ s.fails 0 = 2 ∧ s.inflight 0 = 2 := witness exA (by decide)
 
+-- ---------------------------------------------------------------- the active checker next door
+
+/-- **active_checks_leave_passive_accounting_alone** — a completed active health check
+    (healthchecks.go markHealthy / markUnhealthy, hosts.go countHealthPass / countHealthFail /
+    setHealthy / resetHealth) changes the Host's *active* counters and the upstream's *active*
+    status only: `Host.fails`, `Host.numRequests`, the pending forgetters, the requests, the
+    configurations and the pool are untouched — also when the check flips the status and
+    `resetHealth` runs.  Since the step is part of `Model.step`, every theorem of this file
+    (`fails_eq_pending_forgetters`, `fails_never_negative`, `fails_eq_window`,
+    `unhealthy_iff_max_fails_in_window`, …) holds for all interleavings of proxied requests,
+    forgetters, reloads AND active checks. -/
+theorem active_checks_leave_passive_accounting_alone {s s' : State} {c : CfgId} {i : Nat} {pass : Bool}
+    (hs : step s (.activeCheck c i pass) = some s') :
+    s'.fails = s.fails ∧ s'.inflight = s.inflight ∧ s'.log = s.log ∧ s'.reqs = s.reqs ∧ s'.cfgs = s.cfgs ∧
+      s'.pool = s.pool := by
+  obtain ⟨_, h2, h3, h4, h5, h6, h7, _⟩ := stepActive_core hs
+  exact ⟨h3, h2, h5, h4, h6, h7⟩
+
+def pAct : Params := { pA with maxFails := 3, failDur := 3, retries := 0, aOn := true, aPasses := 1, aFails := 1 }
+
+/-- two passive failures are pending on Host 0 (max_fails 3, window 3), then its health endpoint
+    fails and recovers: the active checker flips the upstream down and up again -/
+def exAct : List Action :=
+  [.newCfg pAct, .store 0 7, .activeCheck 0 0 true, .newReq 0 true, .newReq 0 true, .dispatch 0 0, .dispatch 1 0,
+   .finish 0 .upstreamErr, .after 0, .spawn 0 0, .finish 1 .upstreamErr, .after 1, .spawn 1 1,
+   .activeCheck 0 0 false, .activeCheck 0 0 true]
+
+example : ∃ s, Reachable s ∧ s.fails 0 = 2 ∧ pendingForgetters s 0 = 2 ∧ isDown s 0 0 = false ∧ s.aPass 0 = 0 :=
+  witness exAct (by decide)
+/-- while it is down, selection skips it -/
+example : ∃ s, Reachable s ∧ isDown s 0 0 = true ∧ s.fails 0 = 2 ∧ firstAvailableOf pAct s 0 [(7, 0)] = none :=
+  witness (exAct.take 14) (by decide)
+/-- after the window both failures are forgotten exactly once: the count is 0, not negative -/
+example : ∃ s, Reachable s ∧ Timely s ∧ s.fails 0 = 0 ∧ s.now = 3 :=
+  witness (exAct ++ [.tick, .tick, .tick, .forget 0, .forget 1]) (by decide)
+/-- …and three fresh failures hold the upstream down again (max_fails = 3) -/
+example : ∃ s, Reachable s ∧ Timely s ∧ s.fails 0 = 3 ∧ healthy pAct s 0 = false :=
+  witness (exAct ++ [.tick, .tick, .tick, .forget 0, .forget 1, .newReq 0 true, .newReq 0 true, .newReq 0 true,
+    .dispatch 2 0, .dispatch 3 0, .dispatch 4 0, .finish 2 .upstreamErr, .after 2, .spawn 2 2,
+    .finish 3 .upstreamErr, .after 3, .spawn 3 3, .finish 4 .upstreamErr, .after 4, .spawn 4 4]) (by decide)
+
+/-- selection never returns an upstream the active checker holds down (hosts.go Healthy() starts
+    with the active status): what `first` returns is a position that is not marked down and is
+    available by the passive rules -/
+theorem selection_skips_actively_down {p : Params} {s : State} {dn : Nat → Bool} {i : Nat}
+    {ups : List (Key × HostId)} {u : Key × HostId} (h : firstAvailableFrom p s dn i ups = some u) :
+    ∃ j, ups[j]? = some u ∧ dn (i + j) = false ∧ available p (i + j) s u.2 = true := by
+  induction ups generalizing i with
+  | nil => simp [firstAvailableFrom] at h
+  | cons a as ih =>
+    simp only [firstAvailableFrom] at h
+    split at h
+    next hc =>
+      simp at h; subst h
+      simp only [Bool.and_eq_true, Bool.not_eq_true'] at hc
+      exact ⟨0, by simp, by simpa using hc.1, by simpa using hc.2⟩
+    next =>
+      obtain ⟨j, h1, h2, h3⟩ := ih h
+      exact ⟨j + 1, by simpa using h1, by rw [← Nat.add_assoc, Nat.add_right_comm] at *; simpa [Nat.add_comm 1 j, Nat.add_assoc] using h2,
+        by simpa [Nat.add_comm 1 j, Nat.add_assoc, Nat.add_left_comm] using h3⟩
+
+example : firstAvailableFrom pAct init (fun j => j == 0) 0 [(7, 0), (8, 1)] = some (8, 1) := by decide
+
 -- ---------------------------------------------------------------- which answers strike
 
 /-- `StatusCodeMatches` (caddyhttp.go:230-240): an unhealthy_status entry matches the status the
